@@ -129,7 +129,7 @@ func Concrete(c cellJSON, k int, variant int, rng *rand.Rand) string {
 	case "unknownKey":
 		// member names are case-sensitive: "Method" or "ID" are unknown members like any other (encoding/json would fold them)
 		uk := [][2]string{{"zzz", `1`}, {"Method", `"h"`}, {"ID", `77`}, {"JSONRPC", `"2.0"`}, {"Params", `[1]`}, {"METHOD", `"h"`}, {"Id", `5`}, {"j\u017fonrpc", `"2.0"`},
-			{"Result", `1`}, {"Error", `{"code":1,"message":"m"}`}}
+			{"Result", `1`}, {"Error", `{"code":1,"message":"m"}`}, {"bogus", `null`}, {"Method", `null`}, {"", `null`}, {"", `1`}}   // (an unknown member is unknown whatever its value)
 		kv = append(kv, uk[(k+variant)%len(uk)])
 	case "result":
 		kv = append(kv, [2]string{"result", `"r"`})
